@@ -209,6 +209,8 @@ def explore(fn, *, budget_s=60.0, per_path_s=30.0, shard=(0, 1), shard_of=None,
               unknown_reasons={}, twin_reached=False, suspects=[])
     reps = set()
     profiled = 0
+    hist = []      # representatives already run natively in this process, in order (history for state that leaks between calls)
+    HIST_MAX = 600
     with condition_parser([AnalysisKind.PEP316]), Patched(), COMPOSITE_TRACER, NoTracing():
         while True:
             if time.monotonic() - t0 > budget_s:
@@ -270,6 +272,9 @@ def explore(fn, *, budget_s=60.0, per_path_s=30.0, shard=(0, 1), shard_of=None,
                 if prof:
                     profiled += 1
                 key = repr(sorted(rep.items()))
+                jrep = _jsonable(rep)
+                before = list(hist[-HIST_MAX:]) if (nat is False or status != VerificationStatus.CONFIRMED) and len(st['cex']) + len(st['suspects']) < 4 else None
+                hist.append(jrep)
                 if status == VerificationStatus.CONFIRMED:
                     if nat is True:
                         st['confirmed'] += 1
@@ -281,14 +286,14 @@ def explore(fn, *, budget_s=60.0, per_path_s=30.0, shard=(0, 1), shard_of=None,
                     elif nat is False:
                         # native run is the ground truth: a real counterexample
                         st['refuted'] += 1
-                        st['cex'].append({'args': _jsonable(rep), 'message': nmsg, 'traced': 'confirmed'})
+                        st['cex'].append({'args': _jsonable(rep), 'message': nmsg, 'traced': 'confirmed', 'history': before})
                     else:
                         st['confirmed'] += 1
                         st['native_assume_mismatch'] += 1
                 else:
                     if nat is False:
                         st['refuted'] += 1
-                        st['cex'].append({'args': _jsonable(rep), 'message': nmsg, 'traced': msg})
+                        st['cex'].append({'args': _jsonable(rep), 'message': nmsg, 'traced': msg, 'history': before})
                     else:
                         # traced refutation that does not reproduce: engine discrepancy, inconclusive
                         st['unknown'] += 1
@@ -299,7 +304,7 @@ def explore(fn, *, budget_s=60.0, per_path_s=30.0, shard=(0, 1), shard_of=None,
                         # a failure that shows only the FIRST time in a process (e.g. a call that permanently changes module-level
                         # state) cannot reproduce in this process: hand it to the fresh-process replay, which is the arbiter
                         if len(st['suspects']) < 3:
-                            st['suspects'].append({'args': _jsonable(rep), 'message': msg, 'traced': 'refuted; native re-run in the same process passed'})
+                            st['suspects'].append({'args': _jsonable(rep), 'message': msg, 'traced': 'refuted; native re-run in the same process passed', 'history': before})
                 if len(st['cex']) >= max_cex:
                     break
             if exhausted:
